@@ -26,7 +26,9 @@
                   from_dict∘raw, Circuit.invert, …) the row of the result's class and, for every
                   field of the RESULT, the fields of the source it is computed from (`deps`) and
                   a tag `fn` naming the function applied (result fields of one slot holding the
-                  same value carry the same tag);
+                  same value carry the same tag); `idents` = result fields holding their source
+                  value unchanged; `keeps` = SPECIFIED slots that must be carried over unchanged
+                  (a non-trainable gate must yield a non-trainable gate);
     * `copied` / `shared`   `Circuit.copy(deep=True)`: fields carried over unchanged, and fields
                   living in a container (`init_kwargs`, `init_args`) that the copy SHARES with
                   its source (qibo commit 5ecf884b9 made this list empty);
@@ -72,6 +74,11 @@ structure Producer where
   name : String
   out : Nat
   outs : List OutField
+  /-- result fields that hold the value of their (single) source field UNCHANGED -/
+  idents : List Field
+  /-- SPECIFICATION: pairs (source slot, result slot) the method must carry over unchanged (the
+      `trainable` flag through controlled_by / on_qubits / Circuit.invert / Circuit.on_qubits) -/
+  keeps : List (Nat × Nat)
 deriving Repr
 
 structure Cls where
@@ -109,17 +116,24 @@ def observe (m : View) (o : Obj V) : List (Option V) := m.reads.map o
     field, function tag, values read. -/
 abbrev Fn (V : Type) := String → Nat → Nat → List (Option V) → V
 
+/-- value of one result field from the values read: an identity field passes the first value
+    read through, any other field applies the producer's function. -/
+def outVal (F : Fn V) (p : Producer) (j : Nat) (x : OutField) (vals : List (Option V)) : Option V :=
+  match decide (x.field ∈ p.idents), vals with
+  | true, v :: _ => v
+  | _, _ => some (F p.name j x.fn vals)
+
 /-- the gate object a producer returns, computed from the source's STORED values. -/
 def produceObj (F : Fn V) (p : Producer) (o : Obj V) : Obj V :=
   fun g => match p.outs.find? (fun x => decide (x.field = g)) with
-    | some x => some (F p.name g.slot x.fn (x.deps.map o))
+    | some x => outVal F p g.slot x (x.deps.map o)
     | none => none
 
 /-- specification of a producer: slot `j` of the returned gate as a function of the source's
     current slot values. -/
 def produceCur (F : Fn V) (p : Producer) (cur : Nat → V) : Nat → V :=
   fun j => match p.outs.find? (fun x => decide (x.field.slot = j)) with
-    | some x => F p.name j x.fn (x.deps.map (fun f => some (cur f.slot)))
+    | some x => (outVal F p j x (x.deps.map (fun f => some (cur f.slot)))).getD (F p.name j 0 [])
     | none => F p.name j 0 []
 
 /-- `Circuit.copy(deep=True)` on one gate. -/
@@ -195,8 +209,14 @@ def Producer.ok (T : Table) (c : Cls) (p : Producer) : Bool :=
     match p.outs.find? (fun x => decide (x.field = g)),
           p.outs.find? (fun x => decide (x.field.slot = g.slot)) with
     | some x, some y =>
-      sub x.deps c.live && (x.deps.map (·.slot) == y.deps.map (·.slot)) && (x.fn == y.fn)
-    | _, _ => false)
+      sub x.deps c.live && (x.deps.map (·.slot) == y.deps.map (·.slot)) && (x.fn == y.fn) &&
+      (decide (x.field ∈ p.idents) == decide (y.field ∈ p.idents))
+    | _, _ => false) &&
+  -- the slots the method must carry over are passed through unchanged
+  p.keeps.all (fun ij =>
+    match p.outs.find? (fun x => decide (x.field.slot = ij.2)) with
+    | some y => decide (y.field ∈ p.idents) && (y.deps.map (·.slot) == [ij.1])
+    | none => false)
 
 def Cls.okProducers (T : Table) (c : Cls) : Bool := c.producers.all (Producer.ok T c)
 
